@@ -51,6 +51,13 @@ class Pool:
             if i % 3 == 1: lines.append('el.sub.ee %s %s' % (E(b[i]), E(b[(i * 5 + 2) % len(b)])))
             if i % 3 == 2 and build == 'ark': lines.append('el.negate %s' % E(b[i]))
         if build == 'ark' and len(b) >= 3:
+            # mixed projective / affine operations whose two operands are the SAME element (either coset representative) or opposite ones:
+            # the exceptional inputs of every incomplete addition formula
+            for c in b[2:5]:
+                if not pyref.valid(c): continue
+                a = pyref.aff(c); at = pyref.aff(t2_translate(c)); an = pyref.aff(neg_pt(c)); ant = pyref.aff(t2_translate(neg_pt(c)))
+                lines += ['el.add.Ea %s %s' % (E(c), Af(a)), 'el.add.Ea %s %s' % (E(c), Af(at)), 'el.sub.Ea %s %s' % (E(c), Af(an)), 'el.sub.Ea %s %s' % (E(c), Af(ant)),
+                          'el.add.Ea %s %s' % (E(c), Af(an)), 'el.sub.Ea %s %s' % (E(c), Af(at))]
             # multi-scalar results with ALIGNED scalars (all multiples of 16 / of 2^64: windowed and limb-wise algorithms end without a final
             # addition) and ordinary ones
             for ks in ([16, 32], [2**64, 3 * 2**64], [0x10, 0x100, 0x1000], [5, 7]):
